@@ -282,9 +282,14 @@ def Sketch.iter (s : Sketch α) : List (α × Nat) :=
 
 /-! ### sorted view and queries -/
 
+/-- sort the first list (level 0) -/
+def sortHead (lt : α → α → Bool) : List (List α) → List (List α)
+  | [] => []
+  | l :: t => sortBy lt l :: t
+
 /-- `sort_level_zero` -/
 def sortLevelZero (c : Cmp α) (s : Sketch α) : Sketch α :=
-  if s.sorted0 then s else { s with sorted0 := true, levels := sortBy c.lt (s.levels.headD []) :: s.levels.tail }
+  if s.sorted0 then s else { s with sorted0 := true, levels := sortHead c.lt s.levels }
 
 def viewRaw (lt : α → α → Bool) : List (List α) → Nat → List (α × Nat) → List (α × Nat)
   | [], _, acc => acc
